@@ -18,6 +18,8 @@
   C03-DTLSROLE the answer's role is client or the preserved role for every transport role; setRemoteDescription assigns the
               complement of the remote role for answers and `server` for active offers; setLocalDescription(answer) applies the
               answer's own role; answers with a role outside {client, server} are rejected
+  C03-BUNDLE  every setTransport() of the bundling step is guarded by `not X._bundled` and latches it
+  C03-SLOTS   (shared with C14) description slots after setLocal/RemoteDescription per type
 Does not decide: that the negotiated session connects, nor the full configuration product.
 """
 from __future__ import annotations
